@@ -244,6 +244,7 @@ class PathCtx:
         self.trace = []
         self.solver = harness.solver(ex.timeout_ms)
         self.solver.add(*ex.pre)
+        self.conds = []        # constraints added on this path (beyond ex.pre)
         self.model = None
         self.alts = []
         self.choices = []      # values returned by choose() on this path (for replays)
@@ -268,6 +269,7 @@ class PathCtx:
             d = self.prefix[k]
             self.trace.append(d)
             self.solver.add(cond if d else z3.Not(cond))
+            self.conds.append(cond if d else z3.Not(cond))
             self.model = None
             return d
         self._ensure_model()
@@ -290,6 +292,7 @@ class PathCtx:
             raise Inconclusive("feasibility query returned unknown")
         self.trace.append(d)
         self.solver.add(cond if d else z3.Not(cond))
+        self.conds.append(cond if d else z3.Not(cond))
         STATS.transitions += 1
         return d
 
@@ -319,6 +322,7 @@ class PathCtx:
         if phi is False:
             raise _Infeasible()
         self.solver.add(phi)
+        self.conds.append(phi)
         self.model = None
         r = harness.check(self.solver, "feasibility")
         if r == "unsat":
@@ -342,9 +346,17 @@ class PathCtx:
             return m
         raise Inconclusive(f"{kind} query returned unknown")
 
-    def feasible(self, phi, kind="feasibility"):
-        r, m = harness.refute(self.solver, kind, phi)
+    def feasible(self, phi, kind="feasibility", soft_timeout_ms=None):
+        if soft_timeout_ms:
+            self.solver.set("timeout", soft_timeout_ms)
+        try:
+            r, m = harness.refute(self.solver, kind, phi)
+        finally:
+            if soft_timeout_ms:
+                self.solver.set("timeout", self.ex.timeout_ms)
         if r == "unknown":
+            if soft_timeout_ms:
+                return None
             raise Inconclusive("unknown")
         return m if r == "sat" else None
 
@@ -352,11 +364,53 @@ class PathCtx:
 CUR = None
 
 
+def summarize(run, group_key, cache_key=None):
+    """nested exploration with outcome merging.
+    run(ctx) -> result is explored under the explorer's precondition only (not the outer path condition: the summary is
+    then independent of the outer path and is cached under cache_key across the outer re-executions); results are
+    grouped by group_key(result); the outer path forks once per group (not once per inner path) and continues with
+    the disjunction of the group's path conditions (infeasible combinations are cut by the solver).
+    returns [(path condition, result), ...] of the chosen group"""
+    global CUR
+    outer = CUR
+    cache = outer.ex.summaries
+    if cache_key is not None and cache_key in cache:
+        groups = cache[cache_key]
+    else:
+        sub = Explorer(list(outer.ex.pre), outer.ex.max_paths, outer.ex.timeout_ms)
+        try:
+            results = sub.explore(lambda c: (run(c), z3.And(*c.conds) if c.conds else z3.BoolVal(True)))
+        finally:
+            CUR = outer
+        groups = {}
+        for res, pc in results:
+            groups.setdefault(group_key(res), []).append((pc, res))
+        if cache_key is not None:
+            cache[cache_key] = groups
+    keys = sorted(groups, key=repr)
+    if not keys:
+        raise _Infeasible()
+    k = outer.choose(len(keys), "summary-outcome")
+    grp = groups[keys[k]]
+    outer.assume(z3.Or(*[pc for pc, _ in grp]) if len(grp) > 1 else grp[0][0])
+    return grp
+
+
+def ite_chain(grp, value_of):
+    """value as an if-then-else over the path conditions of a merged outcome group"""
+    val = value_of(grp[-1][1])
+    for pc, res in reversed(grp[:-1]):
+        v = value_of(res)
+        val = wrap(z3.If(pc, term(v), term(val)))
+    return val
+
+
 class Explorer:
     def __init__(self, pre, max_paths=20000, timeout_ms=60000):
         self.pre = list(pre)
         self.max_paths = max_paths
         self.timeout_ms = timeout_ms
+        self.summaries = {}
 
     def explore(self, fn):
         """fn(ctx) is executed once per feasible path; returns list of fn's return values"""
